@@ -240,6 +240,8 @@ def interpret(root):
             else:
                 need(not m.carried, 'story in source of move/delete/swap')
                 m.carried = []
+            if kind == 'EAStorySwap':
+                need(len(m.sources) == 2, 'swap needs exactly two storyIDs')
             if kind == 'EAStoryReplace':
                 need(m.target != ABSENT, 'no target storyID')
         else:
@@ -257,6 +259,8 @@ def interpret(root):
                 m.sources = []
             else:
                 m.carried = []
+            if kind == 'EAItemSwap':
+                need(len(m.sources) == 2, 'swap needs exactly two itemIDs')
     # carried stories / items must have usable IDs to be in claim
     if m.level == 'story' and m.carried:
         need(all(sid(c) is not None for c in m.carried), 'carried story without ID')
